@@ -202,6 +202,12 @@ def der_header_mutants(r, s):
             diff = [i for i in range(len(good)) if m[i] != good[i]]
             if all(i in head for i in diff):
                 keep.append(m)
+    # every value of the three tag octets
+    for i in (0, p0, p0 + len(rb)):
+        for v in range(256):
+            m = good[:i] + bytes([v]) + good[i + 1:]
+            if v != good[i] and m not in keep:
+                keep.append(m)
     return keep
 
 
